@@ -20,7 +20,7 @@ CONSTANTS MaxSteps
 VARIABLES shift, rot, mir, steps
 vars == <<shift, rot, mir, steps>>
 
-Vecs == {<<1, 0>>, <<0, -2>>, <<-1, 1>>}
+Vecs == {<<1, 0>>, <<0, -2>>, <<-1, 1>>, <<3800, 3240>>}    \* the last: to the far corner of a millimetre-wide field of view
 Plus(a, b) == <<a[1] + b[1], a[2] + b[2]>>
 
 Init == shift = <<0, 0>> /\ rot = 0 /\ mir = FALSE /\ steps = 0
